@@ -885,7 +885,12 @@ class Interp:
         if kind == "assign":
             amod, expr = res[1], res[2]
             try:
-                return Const(ast.literal_eval(expr))
+                lit = ast.literal_eval(expr)
+                if isinstance(lit, (dict, list, set)) and self.p.global_mutated(amod, name):
+                    # run-time state, not a table: its content at a use is unknown
+                    ty = ("dict", None, None) if isinstance(lit, dict) else type(lit).__name__
+                    return Sym(("global", amod.label, name), ty)
+                return Const(lit)
             except (ValueError, SyntaxError):
                 pass
             special = self.ext.global_assign(self, amod, name, expr)
